@@ -3,6 +3,7 @@ package simnet
 import (
 	"fmt"
 	"net"
+	"net/netip"
 	"syscall"
 	"time"
 
@@ -374,3 +375,16 @@ func DialUDP(network string, laddr, raddr *net.UDPAddr) (*UDPConn, error) {
 
 // UDPDialer placeholder for transport.UDPDialer (not used by the repository).
 type UDPDialer struct{ Dialer net.Dialer }
+
+// ReadFromUDPAddrPort / WriteToUDPAddrPort: the netip flavours of the same calls.
+func (c *UDPConn) ReadFromUDPAddrPort(b []byte) (int, netip.AddrPort, error) {
+	n, a, err := c.ReadFromUDP(b)
+	if err != nil || a == nil {
+		return n, netip.AddrPort{}, err
+	}
+	return n, a.AddrPort(), nil
+}
+
+func (c *UDPConn) WriteToUDPAddrPort(b []byte, addr netip.AddrPort) (int, error) {
+	return c.WriteToUDP(b, net.UDPAddrFromAddrPort(addr))
+}
